@@ -326,7 +326,7 @@ func init() {
 		Rule:  "real Stream() attempts with server ids {1, 2^31-1, 2^31, 2^32-1, random}, file names of 0..255 bytes incl. empty, path-like, dotted, blank, NUL, quoted, non-UTF-8 and random-byte names, offsets {4, 2^32-1, 2^31, random}, sequences of up to 4 attempts on one streamer, some refused before the dump, some ending only after the format description was received, the position moved by the caller between attempts; the master decodes the COM_QUERY and COM_BINLOG_DUMP it received. Non-trivial: every scenario",
 		Extra: extraC07})
 	register(&Property{ID: "C08",
-		Rule:  "real Stream() with handlers that (a) keep deep references and re-read every delivered transaction after the stream ended, (b) overwrite every delivered byte slice; histories with string/blob/bit/set values (sub-slices of the event buffer) and, for every formatted type, one value repeated in all rows (its zero or a non-zero one; all TIMESTAMP columns in the same second), the scribbling run first; packet sizes around the driver's buffer thresholds (4091..4097, 8187..8193, 262139..262145 byte payloads); master far ahead vs lock-step; plus readBinlogEvent over a scripted connection that reuses one buffer. Non-trivial: every scenario",
+		Rule:  "real Stream() with handlers that (a) keep deep references and re-read every delivered transaction after the stream ended, (b) overwrite every delivered byte slice; histories with string/blob/bit/set values (sub-slices of the event buffer) and, for every formatted type, one value repeated in all rows (its zero or a non-zero one; all TIMESTAMP columns in the same second), the scribbling run first; packet sizes around the driver's buffer thresholds (4091..4097, 8187..8193, 262139..262145 byte payloads); master far ahead vs lock-step; plus readBinlogEvent over a scripted connection that reuses one buffer; multi-file histories (rotations, restarts) through parseEvents with every delivered transaction - positions included - rendered at delivery and again at the end. Non-trivial: every scenario",
 		Extra: extraC08})
 }
 
@@ -867,6 +867,27 @@ func aliasHistory(r *RNG, cfg string, blobLen int) *hist {
 	return h
 }
 
+// rereadCheck: every delivered transaction - positions, timestamp, events, values - is rendered at delivery time and
+// again after the whole history (further transactions, rotations, restarts, ignorable events) went through the real
+// parseEvents; the two renderings must be identical.
+func rereadCheck(col *Collector, h *hist) {
+	line := h.line(posStr(firstFile, 4))
+	ans, err := theDriver.Ask(line)
+	if err != nil {
+		return
+	}
+	_, calls, _ := runParse(h, splitPackets(fields(ans)["packets"]), firstFile, 4, -1, "", false)
+	ok, note := true, ""
+	for i, c := range calls {
+		if k := strings.Index(c, "!changed-after-delivery:"); k >= 0 {
+			ok = false
+			note = fmt.Sprintf("transaction %d read %s at delivery and %s after the stream went on", i, clip(c[:k], 160), clip(c[k+24:], 160))
+			break
+		}
+	}
+	col.AddScenario("reread-after-parse", line, len(calls) > 1, ok, true, note, "changed-after-delivery", fmt.Sprintf("%d transactions re-read", len(calls)), "")
+}
+
 func extraC08(col *Collector, r *RNG, tier string) {
 	m := sharedMaster()
 	np := 40
@@ -878,6 +899,7 @@ func extraC08(col *Collector, r *RNG, tier string) {
 		hh := genHistory(r, po, allCfgs[i%len(allCfgs)])
 		provenanceCheck(col, hh)
 		reusedBufferCheck(col, hh)
+		rereadCheck(col, hh)
 	}
 	for i := 0; i < np/4; i++ {
 		provenanceCheck(col, aliasHistory(r, allCfgs[i%len(allCfgs)], r.Intn(50)))
